@@ -189,6 +189,31 @@ def run(tier, seed):
         if recs is not None:
             distinct = evaluate(v, recs, stats, samples)
         stats["matrix"] = eff
+        # contexts derived from a configured SimpleGarnishData keep the host: the same cases on a clone give the same answers
+        base = [c for c in cases if c.startswith(("S D ", "S Y "))]
+        step = max(1, len(base) // (4000 if eff == "quick" else 40000))
+        base = base[::step]
+        exe = vplib.private_copy(vplib.harness_bin("defer"))
+        rc1, outs = vplib.run_lines([exe], "\n".join(base) + "\n", timeout=900)
+        rc2, outc = vplib.run_lines([exe], "\n".join("C" + c[1:] for c in base) + "\n", timeout=900)
+        try:
+            os.remove(exe)
+        except OSError:
+            pass
+        if rc1 != 0 or rc2 != 0 or len(outs) != len(base) or len(outc) != len(base):
+            v.tie_failure("derived-context run failed rc=%s/%s lines=%d/%d/%d" % (rc1, rc2, len(outs), len(outc), len(base)))
+        else:
+            nbad = 0
+            for c, a, b in zip(base, outs, outc):
+                ra, rb = a.split("\t")[1:2], b.split("\t")[1:2]
+                if ra != rb:
+                    nbad += 1
+                    if nbad <= 5:
+                        v.violation(component="dispatch", input="C" + c[1:], what="a context derived with clone_with_aux_without_data answers "
+                                    "differently from the context it was derived from (the host is not offered the operation the same way)",
+                                    impl=(rb or ["?"])[0][:300], expected=(ra or ["?"])[0][:300])
+            stats["derived_context_cases"] = len(base)
+            stats["derived_context_differences"] = nbad
     stats["data_object_anomalies"] = dict(stats["data_object_anomalies"].most_common(12))
     v.coverage.update({
         "evaluations": len(cases),
